@@ -10,6 +10,7 @@ budgets because they are proved for `page` with arbitrary limits and increments.
 import GoNfsd.Lemmas.DirData
 import GoNfsd.Lemmas.Enumerate
 import GoNfsd.Lemmas.EntriesStay
+import GoNfsd.Lemmas.DirSize
 import GoNfsd.Gen.Skeleton
 
 namespace GoNfsd.Props.C13
@@ -387,5 +388,21 @@ example :
     let s1 := (GoNfsd.Model.Fs.step s0 (.rename (GoNfsd.Model.Fs.mkFh 1 1) [98] (GoNfsd.Model.Fs.mkFh 1 1) [99]) { slot := 3 }).1
     (s0.get 1).slots[2]? = some { inum := 2, name := [97] } ∧ (s1.get 1).slots[2]? = some { inum := 2, name := [97] } ∧
     (s0.get 1).slots[3]? = some { inum := 3, name := [98] } ∧ (s1.get 1).slots[3]? = some { inum := 3, name := [99] } := by decide
+
+/-- THE LOOP BOUND OF EVERY ENUMERATION IS THE DIRECTORY: in every reachable state a directory's size is its number of slots
+    times the slot size (`off < dip.Size` visits every slot and no byte beyond), for any history and any choices. -/
+theorem directory_size_is_its_slots (u : Bool) (sz : Nat) (ops : List (GoNfsd.Model.Fs.Op × GoNfsd.Model.Fs.Choice)) (i : Nat)
+    (hk : ((GoNfsd.Model.Fs.run (GoNfsd.Model.Fs.mkfs u sz) ops).1.get i).kind = GoNfsd.Gen.Consts.NF3DIR) :
+    ((GoNfsd.Model.Fs.run (GoNfsd.Model.Fs.mkfs u sz) ops).1.get i).size =
+      ((GoNfsd.Model.Fs.run (GoNfsd.Model.Fs.mkfs u sz) ops).1.get i).slots.length * GoNfsd.Gen.Consts.DIRENTSZ :=
+  GoNfsd.Model.Fs.run_dirsize _ ops (GoNfsd.Model.Fs.mkfs_dirsize u sz) i hk
+
+/-- A COOKIE ONCE RETURNED STAYS INSIDE THE DIRECTORY: no operation takes slots away from a live directory (it may be
+    removed as a whole, which makes its handle stale) — so a cookie a client holds never points beyond the end. -/
+theorem a_live_directory_never_loses_slots (s : GoNfsd.Model.Fs.FS) (op : GoNfsd.Model.Fs.Op) (c : GoNfsd.Model.Fs.Choice)
+    (i : Nat) (hl : (s.get i).kind ≠ 0) :
+    ((GoNfsd.Model.Fs.step s op c).1.get i).kind = 0 ∨
+      (s.get i).slots.length ≤ ((GoNfsd.Model.Fs.step s op c).1.get i).slots.length :=
+  GoNfsd.Model.Fs.step_grows s op c i hl
 
 end GoNfsd.Props.C13
